@@ -7,40 +7,82 @@ open CkbVerif.Driver CkbVerif.Reorg
 
 structure DSt where
   pool : List PEnt := []        -- reversed
-  att : List Tx := []           -- reversed
-  args : Args := ⟨[], [], [], [], [], []⟩
+  att : List CTx := []          -- reversed
+  det : List CTx := []          -- reversed
+  args : Args := ⟨[], [], [], [], [], [], [], [], 25, 180000000, []⟩
+  /-- the arguments as completed by `rafter` (expired ids known) -/
+  full : Option Args := none
 
 def insertSorted (x : Nat × Nat) : List (Nat × Nat) → List (Nat × Nat)
   | [] => [x]
   | y :: ys => if x.1 < y.1 then x :: y :: ys else y :: insertSorted x ys
 
+def insertNat (x : Nat) : List Nat → List Nat
+  | [] => [x]
+  | y :: ys => if x < y then x :: y :: ys else if x == y then y :: ys else y :: insertNat x ys
+
+/-- sorted, duplicate-free -/
+def sortNat (l : List Nat) : List Nat := l.foldr insertNat []
+
+def showList (sep : String) (l : List String) : String := if l.isEmpty then "-" else sep.intercalate l
+
+def curArgs (s : DSt) : Args := { s.args with attached := s.att.reverse, detached := s.det.reverse }
+
+def parseCTx (id sp dp hd ou ok sz : String) : Option CTx :=
+  match parseNat? id, parseNatList? sp, parseNatList? dp, parseNatList? hd, parseNatList? ou, parseNat? ok, parseNat? sz with
+  | some id, some sp, some dp, some hd, some ou, some ok, some sz => some ⟨id, sp, dp, hd, ou, ok != 0, sz⟩
+  | _, _, _, _, _, _, _ => none
+
 def step (s : DSt) (ts : List String) : DSt × String :=
   match ts with
   | ["rpool"] => ({}, "ok")
-  | ["rent", id, st, sp, dp, hd, ds] =>
-    match parseNat? id, parseNat? st, parseNatList? sp, parseNatList? dp, parseNatList? hd, parseNatList? ds with
-    | some id, some st, some sp, some dp, some hd, some ds =>
-      ({ s with pool := ⟨id, st, sp, dp, hd, ds⟩ :: s.pool }, "ok")
+  | ["rent", id, st, sp, dp, hd, ou, sz] =>
+    match parseNat? id, parseNat? st, parseNatList? sp, parseNatList? dp, parseNatList? hd, parseNatList? ou, parseNat? sz with
+    | some id, some st, some sp, some dp, some hd, some ou, some sz =>
+      ({ s with pool := ⟨id, st, sp, dp, hd, ou, sz⟩ :: s.pool }, "ok")
+    | _, _, _, _, _, _, _ => (s, "bad-op")
+  | ["ratt", id, sp, dp, hd, ou, ok, sz] =>
+    match parseCTx id sp dp hd ou ok sz with
+    | some t => ({ s with att := t :: s.att }, "ok")
+    | none => (s, "bad-op")
+  | ["rdet", id, sp, dp, hd, ou, ok, sz] =>
+    match parseCTx id sp dp hd ou ok sz with
+    | some t => ({ s with det := t :: s.det }, "ok")
+    | none => (s, "bad-op")
+  | ["rargs", dh, dp, g, p, ma, ms] =>
+    match parseNatList? dh, parseNatList? dp, parseNatList? g, parseNatList? p, parseNat? ma, parseNat? ms with
+    | some dh, some dp, some g, some p, some ma, some ms =>
+      ({ s with args := { s.args with detachedHeaders := dh, detachedProposals := dp, gap := g, proposed := p, maxAnc := ma, maxSize := ms } }, "ok")
     | _, _, _, _, _, _ => (s, "bad-op")
-  | ["ratt", id, ins] =>
-    match parseNat? id, parseNatList? ins with
-    | some id, some ins => ({ s with att := ⟨id, ins⟩ :: s.att }, "ok")
-    | _, _ => (s, "bad-op")
-  | ["rargs", dh, dp, g, p] =>
-    match parseNatList? dh, parseNatList? dp, parseNatList? g, parseNatList? p with
-    | some dh, some dp, some g, some p =>
-      ({ s with args := ⟨[], dh, dp, g, p, []⟩ }, "ok")
-    | _, _, _, _ => (s, "bad-op")
+  | ["rlive", lv] =>
+    -- old live set in, new live set out (attached / detached transactions are known by now)
+    match parseNatList? lv with
+    | some lv =>
+      let s' := { s with args := { s.args with live := lv } }
+      (s', showList "," ((sortNat (newLive (curArgs s'))).map toString))
+    | none => (s, "bad-op")
+  | ["rlinks"] =>
+    -- the descendants the derived links give every pooled entry (compared with `calc_descendants`)
+    let p := s.pool.reverse
+    let l := (p.map fun e => (e.id, 0)).foldr insertSorted []
+    (s, showList "," (l.map fun x => s!"{x.1}:{showList "." ((sortNat (descOf p x.1)).map toString)}"))
   | ["rafter", ex] =>
     match parseNatList? ex with
     | some ex =>
-      let a : Args := { s.args with attached := s.att.reverse, expired := ex }
-      let r := update s.pool.reverse a
+      let a : Args := { curArgs s with expired := ex }
+      let r := reorg s.pool.reverse a
       let l := (r.map fun e => (e.id, e.status)).foldr insertSorted []
-      (s, if l.isEmpty then "-" else ",".intercalate (l.map fun x => s!"{x.1}:{x.2}"))
+      ({ s with full := some a }, showList "," (l.map fun x => s!"{x.1}:{x.2}"))
+    | none => (s, "bad-op")
+  | ["rback"] =>
+    -- the verdict of `readd_detached_tx` per detached-only transaction, block order
+    match s.full with
+    | some a =>
+      let r := reorg s.pool.reverse a
+      (s, showList "," ((retain a).map fun t => s!"{t.id}:{if hasId r t.id then 1 else 0}"))
     | none => (s, "bad-op")
   | op :: _ =>
-    if ["cfg", "submit", "time", "mine", "fork"].contains op then (s, "ok") else (s, "bad-op")
+    if ["cfg", "submit", "time", "mine", "fork", "forkx"].contains op then (s, "ok") else (s, "bad-op")
   | _ => (s, "bad-op")
 
 def main (_args : List String) : IO UInt32 := runLines ({} : DSt) step
